@@ -624,13 +624,20 @@ impl CPU {
             self.int = None;
         }
 
+        // Accepting a maskable interrupt disables further maskable interrupts until the next EI
+        let accepted = self.iff1 && self.int.is_some();
+        if accepted {
+            self.iff1 = false;
+            self.iff2 = false;
+        }
+
         // Interrupt requested in interrupt mode 1 ? Restart at address 0038h (opcode 0xFF)
-        if self.iff1 && self.int.is_some() && self.im == 1 {
+        if accepted && self.im == 1 {
             self.int = Some(0xFF)
         };
 
         // Interrupt requested in interrupt mode 2 ? Push PC onto the stack, build jump address and jump to that address
-        if self.iff1 && self.int.is_some() && self.im == 2 {
+        if accepted && self.im == 2 {
             self.interrupt_stack_push();
             let addr = ((self.reg.i as u16) << 8) | (self.int.unwrap() as u16);
             self.reg.pc = self.bus.read_word(addr);
@@ -638,13 +645,10 @@ impl CPU {
         };
 
         // We retrieve the opcode, wether it comes from an interrupt request or normal fetch
-        let opcode = match self.iff1 {
-            false => self.bus.read_byte(self.reg.pc),
-            // interrupts enabled : is there a pending interrupt ?
-            true => match self.int {
-                None => self.bus.read_byte(self.reg.pc),
-                Some(o) => o,
-            },
+        let opcode = match self.int {
+            None => self.bus.read_byte(self.reg.pc),
+            // accepted interrupt (mode 0 / 1) : the opcode comes with the request
+            Some(o) => o,
         };
 
         let cycles = match opcode {
